@@ -130,7 +130,7 @@ def denseCase : P String := do
   let other : Array Float := Array.replicate (s.size + (if s.size % 2 == 0 then 0 else 1)) 2.5
   let cp := match copyFlat data other with | some d => showFs d.toList | none => "runtime_error"
   let sw := match swapFlat data other with | some (a, b) => showFs (a.toList ++ b.toList) | none => "runtime_error"
-  pure s!"dense size={s.size} addr={showNs addrs} ext={showFs ext} axpy={showNs touched} asg={showFs asg.toList} asgx={showFs asgx.toList} max={showNs mx} min={showNs mn} fe2={showFs fe2.toList} fe3={showFs fe3.toList} fill={showFs fl.toList} copy={cp} swap={sw}"
+  pure s!"dense size={s.size} addr={showNs addrs} ext={showFs ext} cext={showFs ext} axpy={showNs touched} asg={showFs asg.toList} asgx={showFs asgx.toList} max={showNs mx} min={showNs mn} fe2={showFs fe2.toList} fe3={showFs fe3.toList} fill={showFs fl.toList} copy={cp} swap={sw}"
 
 /-! ### forcing -/
 def forcingCase : P String := do
@@ -807,6 +807,29 @@ def errcCase : P String := do
       | .error e => errStr e.toErr)
   | _ => pure "bad-op"
 
+/-- two solvers for the same species in different internal orders; a State of the second is copy-assigned a State
+    of the first (and the other way round); all reads are by name -/
+def cpAssignCase : P String := do
+  let _L ← nat; let ns ← nat; let ncell ← nat; let _reorder2 ← nat
+  let perm1 ← nats ns; let perm2 ← nats ns
+  let vals1 ← flts (ns * ncell); let vals2 ← flts (ns * ncell)
+  let j ← nat; let newv ← flts ncell
+  let _dt ← flt
+  let mk : List Nat → MState Float := fun perm =>
+    { varMap := (List.range ns).foldl (fun m i => nmInsert m s!"s{i}" (perm.getD i 0)) [], parMap := [], nVars := ns, nPars := 0,
+      vars := matOf ncell ns (List.replicate (ns * ncell) 0.0), pars := matOf ncell 0 [], atol := #[], rtol := 0.0 }
+  let fill := fun (st : MState Float) (vals : List Float) =>
+    (List.range ns).foldl (fun st i => match st.setConcentration s!"s{i}" ((vals.drop (i * ncell)).take ncell) with
+      | .ok st' => st' | .error _ => st) st
+  let byName := fun (st : MState Float) =>
+    (List.range ns).flatMap fun i => (List.range ncell).map fun c => (st.concentration s!"s{i}" c).getD (0.0 / 0.0)
+  let a := fill (mk perm1) vals1
+  let b := fill (mk perm2) vals2
+  let b' := b.assign a
+  let a2 := (fill (mk perm1) vals1).assign b
+  let b'' := match b'.setConcentration s!"s{j}" newv with | .ok st => st | .error _ => b'
+  pure s!"cpassign cons=1 byname={showFs (byName b')} rev={showFs (byName a2)} after_a={showFs (byName a)} after_b={showFs (byName b'')} solve_same=1"
+
 def runLine2 (line : String) : String :=
   let toks := (line.trimAscii.toString.splitOn " ").filter (· != "")
   match toks with
@@ -816,6 +839,7 @@ def runLine2 (line : String) : String :=
     | "build" => (buildCase.run rest).1
     | "markowitz" => (markowitzCase.run rest).1
     | "rates" => (ratesCase.run rest).1
+    | "cpassign" => (cpAssignCase.run rest).1
     | "hist" => (histCase.run rest).1
     | "forcingflat" => (forcingFlatCase.run rest).1
     | "norm" => (normCase.run rest).1
